@@ -108,6 +108,11 @@ def run_case(case, scratch_root):
                 "strategy": inv.get("strategy", "blocked-fifo"), "seed": inv.get("seed", 0),
                 "inject": inv.get("inject"), "count_lines": inv.get("count_lines", False), "unrelated": inv.get("unrelated"), "outer_env": inv.get("outer_env"), "proc": inv.get("proc")}
         blockers = []
+        nul_tasks = [x for x, sc in inv.get("script", {}).items() if sc.get("launch_fail") == "nul" and x in tb]
+        if nul_tasks:
+            for x in nul_tasks:
+                tb[x]["run"] = "true \0 never reached"
+            gen.write_project(root, tasks)
         for x, sc in inv.get("script", {}).items():
             if sc.get("launch_fail") == "outdir" and x in tb and tb[x]["kind"] == "run_command":
                 # something that is not a directory sits where the task's output directory belongs
@@ -120,6 +125,10 @@ def run_case(case, scratch_root):
                         f.write("not a directory\n")
                     blockers.append(bp)
         kind, res = common.run_forked(schedsim.run_invocation, spec, inv.get("timeout", 90))
+        if nul_tasks:
+            for x in nul_tasks:
+                tb[x]["run"] = "true"
+            gen.write_project(root, tasks)
         for bp in blockers:
             try:
                 os.unlink(bp)
@@ -160,7 +169,7 @@ def no_process_expected(rec, inv, cand):
     """real kernel: a task that cannot be launched never produces a probe record; interposed kernel: a task
     whose output directory cannot be created never reaches the spawn primitive"""
     sc = inv.get("script", {})
-    return {x for x in cand if sc.get(x, {}).get("launch_fail") and (rec.get("e1") or sc[x]["launch_fail"] == "outdir")}
+    return {x for x in cand if sc.get(x, {}).get("launch_fail") and (rec.get("e1") or sc[x]["launch_fail"] in ("outdir", "nul"))}
 
 
 def intervals(rec):
@@ -613,7 +622,9 @@ def eval_case(arg):
 # --------------------------------------------------------------------------------------------
 # workloads
 # --------------------------------------------------------------------------------------------
-FAULTS = [{"exit": 1}, {"exit": 2}, {"exit": 255}, {"exit": 256 + 3}, {"signal": 9}, {"signal": 11}, {"signal": 15}, {"launch_fail": "chdir"}, {"launch_fail": "exec"}, {"launch_fail": "outdir"}]
+FAULTS = [{"exit": 1}, {"exit": 2}, {"exit": 255}, {"exit": 256 + 3}, {"signal": 9}, {"signal": 11}, {"signal": 15}, {"launch_fail": "chdir"}, {"launch_fail": "exec"}, {"launch_fail": "outdir"},
+          # a command line that no process can be started with (a NUL byte in run=: '\0' typed in a non-raw string)
+          {"launch_fail": "nul"}]
 
 
 def realrun_envs():
